@@ -15,12 +15,13 @@ class Case:
     """one harness instance: fn() returns [(obligation name, SB/bool)]"""
     def __init__(self, name, fn, bind=(), allowed_exc=(), timeout_ms=10000, maxcases=8, max_paths=400,
                  budget_s=120, linearize=True, descr='', setup=None, kernels=(), weight=1.0,
-                 expect_paths=1, concrete_only=False):
+                 expect_paths=1, concrete_only=False, reload=()):
         self.name = name; self.fn = fn; self.bind = tuple(bind); self.allowed_exc = tuple(allowed_exc)
         self.timeout_ms = timeout_ms; self.maxcases = maxcases; self.max_paths = max_paths
         self.budget_s = budget_s; self.linearize = linearize; self.descr = descr; self.setup = setup
         self.kernels = tuple(kernels); self.weight = weight; self.expect_paths = expect_paths
         self.concrete_only = concrete_only
+        self.reload = tuple(reload)       # modules re-executed before the concrete replays (module-level caches filled by the symbolic run)
 
 
 def _jsonable(x):
@@ -75,6 +76,11 @@ def run_case(case, extdir):
             k = pr.status.split(':')[0] if not pr.status.startswith('exc') else pr.status[:120]
             out['path_status'][k] = out['path_status'].get(k, 0) + 1
         sx.unbind(*case.bind)
+        import importlib as _il
+        nu_ = sys.modules.get('numericalunits')
+        if nu_ is not None and hasattr(nu_, '_verif_real_reset'): nu_.reset_units = nu_._verif_real_reset      # stub installed by the unit harnesses
+        for m_ in case.reload:
+            if m_ in sys.modules: _il.reload(sys.modules[m_])
     else:
         witness = {}
         out['stats'] = sx.Stats().asdict(); out['npaths'] = 0; out['path_status'] = {}
@@ -170,7 +176,7 @@ def load_known():
 def match_known(known, pid, case, obligation):
     import fnmatch
     for k in known.get('known', []):
-        if k['property'] == pid and fnmatch.fnmatch(case, k['case']) and fnmatch.fnmatch(obligation, k['obligation']):
+        if k['property'] == pid and (case == k['case'] or fnmatch.fnmatch(case, k['case'])) and (obligation == k['obligation'] or fnmatch.fnmatch(obligation, k['obligation'])):
             return k
     return None
 
